@@ -115,6 +115,6 @@ def trace_certificates(ctx, n):
 
 def run(ctx):
     answercheck.run_corpus(ctx, "C01", judge_sat=False, judge_unsat=True)
-    trace_certificates(ctx, 100 if ctx.quick else 3000)
-    answercheck.sweep(ctx, "C01", 80 if ctx.quick else 2500, 3, judge_sat=False, judge_unsat=True,
+    trace_certificates(ctx, 100 if ctx.quick else 800)
+    answercheck.sweep(ctx, "C01", 80 if ctx.quick else 640, 3, judge_sat=False, judge_unsat=True,
                       gen_kwargs=dict(p_incremental=0.4, p_big=0.15, nassert=None, depth=None), all_configs=not ctx.quick and False)
